@@ -1,4 +1,150 @@
-import IofloModel.Model.HttpCodec
+import IofloModel.Lemmas.HttpCodec
+/-!
+# C30 — HTTP requests and WSGI responses survive the round trip
+
+Model: `Model/HttpCodec.lean`.  Byte-level theorems; `urllib.parse` is the parameter `S : Std`.
+-/
 namespace Ioflo.HttpCodec
-theorem C30_placeholder : packChunk [] = [48, 13, 10, 13, 10] := by decide
+
+/-! ## chunks -/
+
+theorem hex_not_ws (n : Nat) : ∀ b ∈ toHex n, isWsN b = false := by
+  intro b hb
+  have := toHex_lower n b hb
+  unfold isHexLower at this
+  unfold isWsN
+  simp
+  omega
+
+theorem hex_not_mem (n c : Nat) (hc : ¬ isHexLower c) : c ∉ toHex n := fun h => hc (toHex_lower n c h)
+
+theorem pyIntHex_toHex (n : Nat) : pyIntHex (toHex n) = .ok n := by
+  unfold pyIntHex
+  simp only [stripN_id _ (hex_not_ws n)]
+  have h128 : (toHex n).any (fun b => decide (b ≥ 128)) = false := by
+    rw [List.any_eq_false]
+    intro b hb
+    have := toHex_lower n b hb
+    unfold isHexLower at this
+    simp; omega
+  have hne : (toHex n).isEmpty = false := by
+    cases h : toHex n with
+    | nil => exact absurd h (toHex_ne_nil n)
+    | cons _ _ => rfl
+  simp [h128, hexDigits_toHex, hne]
+
+/-- **C30, chunk round trip** (every byte string, every continuation): what `packChunk` writes, `parseChunk`
+reads back — size, data and the untouched rest; the empty message is the terminating chunk. -/
+theorem C30_chunk_roundtrip (msg rest : Bytes) (hsize : msg.length < 2 ^ 64) :
+    parseChunk (packChunk msg ++ rest) = .done ⟨msg.length, [], [], msg⟩ rest := by
+  have hlen : (toHex msg.length).length ≤ MAX_LINE_SIZE := by
+    have := toHex_length_le 15 msg.length (by simpa using hsize)
+    unfold MAX_LINE_SIZE; omega
+  have h13 : 13 ∉ toHex msg.length := hex_not_mem _ 13 (by unfold isHexLower; omega)
+  have h59 : 59 ∉ toHex msg.length := hex_not_mem _ 59 (by unfold isHexLower; omega)
+  have hraw : packChunk msg ++ rest = toHex msg.length ++ 13 :: 10 :: (msg ++ 13 :: 10 :: rest) := by
+    simp [packChunk, crlf]
+  unfold parseChunk
+  rw [hraw, parseLine_crlf true _ _ h13 hlen]
+  simp only [partitionN_not_mem 59 _ h59, pyIntHex_toHex]
+  by_cases h0 : msg.length = 0
+  · have hm : msg = [] := List.length_eq_zero_iff.1 h0
+    subst hm
+    simp [parseLeader, parseLeaderAux, parseLine, splitCRLF, MAX_LINE_SIZE, MAX_HEADERS]
+  · have hdrop : (msg ++ 13 :: 10 :: rest).drop msg.length = 13 :: 10 :: rest := by simp
+    have htake : (msg ++ 13 :: 10 :: rest).take msg.length = msg := by simp
+    have hpl : parseLine true (13 :: 10 :: rest) = .done [] rest := by
+      simpa using parseLine_crlf true [] rest (by simp) (by simp [MAX_LINE_SIZE])
+    simp [h0, hdrop, htake, hpl]
+
+/-- non-vacuity: a three byte message and what follows it -/
+example : parseChunk (packChunk [104, 105, 33] ++ [48, 13, 10, 13, 10]) = .done ⟨3, [], [], [104, 105, 33]⟩ [48, 13, 10, 13, 10] :=
+  C30_chunk_roundtrip _ _ (by decide)
+
+/-- a body as `Responder.write` frames it when chunking: one chunk per piece written, then the empty chunk -/
+def chunkedBody (pieces : List Bytes) : Bytes := pieces.flatMap packChunk ++ packChunk []
+
+theorem parseChunks_pieces (pieces : List Bytes) :
+    ∀ (fuel : Nat) (acc rest : Bytes), pieces.length < fuel →
+      (∀ p ∈ pieces, p ≠ [] ∧ p.length < 2 ^ 64) →
+      parseChunks fuel acc [] (chunkedBody pieces ++ rest) = .done (acc ++ pieces.flatten, [], []) rest := by
+  induction pieces with
+  | nil =>
+    intro fuel acc rest hf _
+    cases fuel with
+    | zero => omega
+    | succ f =>
+      have := C30_chunk_roundtrip [] rest (by decide)
+      simp only [chunkedBody, List.flatMap_nil, List.nil_append, parseChunks, this]
+      simp
+  | cons p ps ih =>
+    intro fuel acc rest hf hp
+    cases fuel with
+    | zero => omega
+    | succ f =>
+      obtain ⟨hne, hlen⟩ := hp p (by simp)
+      have hraw : chunkedBody (p :: ps) ++ rest = packChunk p ++ (chunkedBody ps ++ rest) := by
+        simp [chunkedBody]
+      have hsz : p.length ≠ 0 := fun h => hne (List.length_eq_zero_iff.1 h)
+      rw [hraw]
+      simp only [parseChunks, C30_chunk_roundtrip p _ hlen, List.foldl_nil, hsz, if_false]
+      rw [ih f (acc ++ p) rest (by simp at hf; omega) (fun q hq => hp q (by simp [hq]))]
+      simp
+
+/-- **C30, chunked body round trip** (any number of pieces): the chunks the responder writes — one per
+non-empty piece, then the empty chunk — are read back as the concatenation of the pieces, and what follows
+the body is left untouched. -/
+theorem C30_chunked_body_roundtrip (pieces : List Bytes) (rest : Bytes)
+    (hp : ∀ p ∈ pieces, p ≠ [] ∧ p.length < 2 ^ 64) :
+    parseChunks ((chunkedBody pieces ++ rest).length + 1) [] [] (chunkedBody pieces ++ rest)
+      = .done (pieces.flatten, [], []) rest := by
+  have hlen : pieces.length ≤ (chunkedBody pieces).length := by
+    clear hp
+    induction pieces with
+    | nil => simp
+    | cons p ps ih =>
+      have h1 : 1 ≤ (packChunk p).length := by simp [packChunk, crlf]; omega
+      simp only [chunkedBody, List.flatMap_cons, List.length_append, List.length_cons] at ih ⊢
+      omega
+  have := parseChunks_pieces pieces ((chunkedBody pieces ++ rest).length + 1) [] rest
+    (by simp only [List.length_append]; omega) hp
+  simpa using this
+
+/-- non-vacuity -/
+example : parseChunks 100 [] [] (chunkedBody [[1, 2, 3], [13, 10], [48]] ++ [7])
+    = .done ([] ++ [[1, 2, 3], [13, 10], [48]].flatten, [], []) [7] :=
+  parseChunks_pieces _ 100 [] [7] (by decide) (by decide)
+
+/-! ## header lines -/
+
+theorem headerBlock_length (hs : List (Str × Str)) : hs.length ≤ (headerBlock hs).length := by
+  induction hs with
+  | nil => simp [headerBlock]
+  | cons kv hs ih =>
+    simp only [headerBlock, List.flatMap_cons, List.length_append, List.length_cons] at ih ⊢
+    omega
+
+/-- **C30, header round trip** (every block of at most 100 headers): the lines `packHeader` writes for names
+that are ASCII without `:`/CR/LF and Latin-1 values without CR/LF — in any letter case, with blanks, colons and
+commas inside the values — are read back by `parseLeader` as the dict `lower(name) ↦ value` (later duplicates
+win, first position kept), and the bytes after the empty line are left untouched. -/
+theorem C30_header_roundtrip (hs : List (Str × Str)) (rest : Bytes)
+    (hgood : ∀ kv ∈ hs, GoodName kv.1 ∧ GoodValue kv.2 ∧ (headerLine kv.1 kv.2).length ≤ MAX_LINE_SIZE)
+    (hcount : hs.length ≤ MAX_HEADERS) :
+    (∀ kv ∈ hs, packHeader kv.1 [.str kv.2] = .ok (headerLine kv.1 kv.2))
+    ∧ parseLeader (headerBlock hs ++ crlf ++ rest) = .done (hs.foldl (fun d kv => loSet d kv.1 kv.2) []) rest := by
+  refine ⟨fun kv h => packHeader_good (hgood kv h).1 (hgood kv h).2.1, ?_⟩
+  unfold parseLeader
+  have hraw : headerBlock hs ++ crlf ++ rest = headerBlock hs ++ 13 :: 10 :: rest := by simp [crlf]
+  rw [hraw]
+  apply parseLeaderAux_block hs _ [] rest _ hgood (by simpa using hcount)
+  have := headerBlock_length hs
+  simp only [List.length_append, List.length_cons]
+  omega
+
+/-- non-vacuity: mixed case names, a value with blanks and ": " inside, a duplicate -/
+example : parseLeader (headerBlock [("x-THING".toList, " a: b ".toList), ("Accept".toList, "é".toList),
+      ("X-Thing".toList, "2".toList)] ++ crlf ++ [1, 2])
+    = .done [("x-thing".toList, "2".toList), ("accept".toList, "é".toList)] [1, 2] := by decide +kernel
+
 end Ioflo.HttpCodec
